@@ -3,13 +3,13 @@ package main
 // C10 — PageSelect.tla / Lifecycle.tla binding.
 
 import (
-	"strings"
 	"encoding/json"
 	"fmt"
 	"os"
 	"path/filepath"
 	"regexp"
 	"strconv"
+	"strings"
 	"sync"
 
 	"verif/internal/pdfdoc"
@@ -578,7 +578,7 @@ func c10LifeFmt(i int, raw []byte) Result {
 			e.Close()
 			e.Close()
 		}
-		if left := countFDs() - base; left != 0 {
+		if left := countFDs() - base; left > 0 {
 			return mk("life-handle-leak", fmt.Sprintf("%d file descriptors remain open after every extractor was closed", left), len(c.Log)-1)
 		}
 	}
